@@ -132,7 +132,7 @@ func init() {
 		}
 		return runCluster(ClusterCheck{
 			Prop: "C09", Level: "model_checking", Budget: budget(b), Phases: ph, Floor: 50,
-			Rule: "honest schedules (S1, seeds, single deviations) plus a harness-played validator (a real node whose pool of outgoing block signatures receives adversarial entries: signature over another body, future/negative index, duplicate, stranger's key, relabelled, malformed, signature by a removed / not-yet-effective / other member) at every chosen position. Oracle after every step at every honest node, with plain crypto/ecdsa and an independent body digest: every stored (validator, signature) verifies against that node's body of the block and the validator is in the block's round set; a foreign signature is recorded under V only if an event created by V carried it; an anchor has valid signatures of > n/3 distinct members (>=1) and never moves backwards between resets; every signature an honest node gossips verifies against the block it delivered incl. state hash and receipts",
+			Rule:        "honest schedules (S1, seeds, single deviations) plus a harness-played validator (a real node whose pool of outgoing block signatures receives adversarial entries: signature over another body, future/negative index, duplicate, stranger's key, relabelled, malformed, signature by a removed / not-yet-effective / other member) at every chosen position. Oracle after every step at every honest node, with plain crypto/ecdsa and an independent body digest: every stored (validator, signature) verifies against that node's body of the block and the validator is in the block's round set; a foreign signature is recorded under V only if an event created by V carried it; an anchor has valid signatures of > n/3 distinct members (>=1) and never moves backwards between resets; every signature an honest node gossips verifies against the block it delivered incl. state hash and receipts",
 			Assumptions: []string{"malformed signature strings that make DecodeSignature return nil integers crash the verifier; those are C08's subject and are not injected here"},
 		})
 	}
